@@ -14,10 +14,11 @@ from .. import tlc
 from ..core import Check, MachineryError, Timeout, watchdog
 from ..jsonv import jv, regex_facts, has_big
 
-PROP_NAMES = ["a", "b", "name", "class", "def", "a-b", "a_b", "1x", "@p", "items", "keys", "update", "get", "values", "pop", "copy", "x y", "A", "a.b", "type", "self"]
+PROP_NAMES = ["a", "b", "name", "class", "def", "a-b", "a_b", "1x", "@p", "items", "keys", "update", "get", "values", "pop", "copy", "x y", "A", "a.b", "type", "self",
+              "class_value", "def_value"]      # what a keyword-named property is renamed to
 INSTANCES = [None, True, False, 0, 1, 2, 3, 4, 5, 10, -1, -2, -5, 1.5, 2.5, 0.5, 3.0, -0.5, 1.25, "", "a", "ab", "abc", "abcd", "1", "2022-03-04", "x1", "A",
              [], [1], [1, 2], [1, "a"], ["a"], [1, 1], [1, 2, 3], [[1]], [None], [1.5],
-             {}, {"a": 1}, {"a": "x"}, {"a": 1, "b": 2}, {"b": 2}, {"a": 1, "zz": 3}, {"a": [1]}, {"a": {"b": 1}}, {"name": "n", "class": 1},
+             {}, {"a": 1}, {"a": "x"}, {"a": 1, "b": 2}, {"b": 2}, {"a": 1, "zz": 3}, {"a": [1]}, {"a": {"b": 1}}, {"name": "n", "class": 1}, {"class": 1, "class_value": "s"}, {"class_value": "s"}, {"class": 1},
              {"items": 1}, {"a-b": 1, "a_b": 2}, {"keys": "k", "update": 1}, {"1x": 1, "@p": 2}, {"a": None}, {"a": 1.5}, {"x y": 1, "A": 2}]
 
 
@@ -116,6 +117,8 @@ FIXED = [
     {"type": "object", "properties": {"b": {"type": "object"}}, "minProperties": 1}, {"type": "object", "required": ["a"]},
     {"type": "boolean", "enum": [1, "a", None]}, {"allOf": [{"type": "boolean"}, {"type": "integer", "maximum": 0}]},
     {"allOf": [{"type": "object", "properties": {"name": {}}, "required": ["name"], "additionalProperties": {}}, {"type": "object", "properties": {"copy": {"type": "boolean"}}}]},
+    {"type": "object", "properties": {"class": {"type": "integer"}, "class_value": {"type": "string"}}},
+    {"type": "object", "properties": {"class_value": {"type": "string"}, "class": {"type": "integer"}}, "required": ["class_value"]},
     {"type": "integer", "anyOf": [{"minimum": 5}, {"maximum": 0}]}, {"type": "integer", "allOf": [{"minimum": 5}]}, {"type": "number", "format": "date-time"},
 ]
 
@@ -276,7 +279,7 @@ def main():
     for t in res.tagged("VIOL"):
         r = byid[t[1]]
         ck.violation(scenario_key(r, t[2]), t[2], r)
-    ck.rule = ("schemas = 44 fixed + a grid of every numeric / length / count keyword x two bounds (all instances, which hold bound - 1, bound, "
+    ck.rule = ("schemas = 46 fixed + a grid of every numeric / length / count keyword x two bounds (all instances, which hold bound - 1, bound, "
                "bound + 1) + random compositions (depth 1-3) of the supported keywords, typed and untyped, with 21 property names incl. "
                "Python keywords, non-identifiers, mapping-method names and names colliding after sanitising; instances = 50 JSON values (22 sampled per "
                "schema in the quick tier) converted under no_explicit_cast + no_data_loss; distinct_nontrivial = distinct schemas built and distinct "
